@@ -230,7 +230,10 @@ def main(argv=None):
         violations.append(("t1", o))
 
     os.makedirs(os.path.join(ROOT, "replays"), exist_ok=True)
-    os.makedirs(os.path.join(ROOT, "evidence"), exist_ok=True)
+    # evidence/ describes runs against /repo only: a run against another tree (selftest/run_seeded.py sets PYVC_EVIDENCE_DIR)
+    # writes its evidence elsewhere
+    evdir = os.environ.get("PYVC_EVIDENCE_DIR") or os.path.join(ROOT, "evidence")
+    os.makedirs(evdir, exist_ok=True)
     out_lines = []
     # every LISTED finding of this property: replay its committed witness; report it while it still fails
     for f in kf.get("findings", []):
@@ -275,7 +278,7 @@ def main(argv=None):
     # ---- evidence
     ev = build_evidence(prop, props, tier, a.seed, fresults, lresults, obligations, discharged, refuted, unknown, demoted,
                         faults, t2_results, t2_faults, assumed, missing_hard, known_hits, len(violations), t0, contracts)
-    json.dump(ev, open(os.path.join(ROOT, "evidence", prop + ".json"), "w"), indent=1)
+    json.dump(ev, open(os.path.join(evdir, prop + ".json"), "w"), indent=1)
 
     print("%s tier=%s: T1/T3 obligations %d discharged %d refuted %d undecided %d; functions under contract %d "
           "(demoted to bounded: %d); bounded drivers %s evaluations %d violations %d; wall %.1fs"
